@@ -41,6 +41,11 @@ def gen_elem_pic(rng, display_only: bool = False, allow_binary: bool = True) -> 
     if r < 0.60 or display_only:
         m, k = rng.randint(1, 6), rng.choice([0, 0, 1, 2])
         s = rng.random() < 0.4
+        if rng.random() < 0.12:
+            # a pure fraction: no integer digit positions at all (PIC V99, PIC SV9(3))
+            m, k = 0, rng.randint(1, 4)
+            pic = ("S" if s else "") + "V" + (f"9({k})" if rng.random() < 0.4 else "9" * k)
+            return pic, (None if rng.random() < 0.7 else "DISPLAY"), k + (1 if s else 0)
         pic = ("S" if s else "") + (f"9({m})" if rng.random() < 0.6 else "9" * m) + (f"V9({k})" if k else "")
         return pic, (None if rng.random() < 0.7 else "DISPLAY"), m + k + (1 if s else 0)
     if r < 0.85 or not allow_binary:
